@@ -279,8 +279,59 @@ def h_resize_nopsf(mods, ratio_mode, with_helper):
     return h
 
 
+def h_resize_psf(mods, same_psf, from_cat):
+    """resize with psf information (ratio None): deconvolve the catalogue psf, convolve with the image psf"""
+    cl = mods['cluster']
+
+    def h(c):
+        class S:
+            pass
+        s = S()
+        s.ra, s.dec, s.a, s.b, s.pa = real('ra'), real('dec'), real('a'), real('b'), real('pa')
+        c.assume(s.a.e > 0)
+        c.assume(s.b.e > 0)
+        ima, imb = real('ima'), real('imb')        # image beam (degrees)
+        c.assume(ima.e > 0)
+        c.assume(imb.e > 0)
+        if same_psf:
+            cata, catb = ima * 3600, imb * 3600     # catalogue psf (arcsec) equal to the image beam
+        else:
+            cata, catb = real('cata'), real('catb')
+            c.assume(cata.e > 0)
+            c.assume(catb.e > 0)
+        if from_cat:
+            s.psf_a, s.psf_b, s.psf_pa = cata, catb, real('catpa')
+        else:
+            s.psf_a = s.psf_b = s.psf_pa = float('nan')
+        s.island, s.source = 0, 0
+        a0, b0 = s.a, s.b
+
+        class PH:
+            def get_psf_sky2sky(self, ra, dec):
+                return (cata / 3600, catb / 3600, real('catpa'))
+
+            def get_skybeam(self, ra, dec):
+                return Beamish(ima, imb, real('impa'))
+        cl.Beam = Beamish
+        tag = 'resize with psf[%s, psf from %s]' % ('catalogue psf == image psf' if same_psf else 'different psfs', 'catalogue columns' if from_cat else 'the psf helper')
+        out = cl.resize([s], ratio=None, psfhelper=PH())
+        c.oblige(tag + ':source kept', z3.BoolVal(len(out) == 1 and out[0] is s))
+        if not (isinstance(s.a, SN) and isinstance(s.b, SN)):
+            c.oblige(tag + ':sizes are numbers', z3.BoolVal(False))
+            return dict()
+        if same_psf:
+            c.oblige(tag + ':sizes unchanged for every source size (also smaller than the psf)', z3.And(s.a.e == a0.e, s.b.e == b0.e), timeout_ms=30000)
+        else:
+            for nm, new, old, cat, im in (('a', s.a, a0, cata, ima), ('b', s.b, b0, catb, imb)):
+                q = (old.e / 3600) * (old.e / 3600) - (cat.e / 3600) * (cat.e / 3600) + im.e * im.e
+                c.oblige(tag + ':%s^2 == %s0^2 - cat_psf^2 + image_psf^2 (clipped to the image psf when negative)' % (nm, nm),
+                         z3.If(q < 0, new.e == im.e * 3600, z3.And(new.e >= 0, (new.e / 3600) * (new.e / 3600) == q)), timeout_ms=30000)
+        return dict()
+    return h
+
+
 # ------------------------------------------------------------------ replay oracle: real priorized runs on the noise-free model image
-def oracle(stages=(1, 2, 3), nsrc=9, nopsf=False, ratio=None):
+def oracle(stages=(1, 2, 3), nsrc=9, nopsf=False, ratio=None, small=False):
     sfm = loader.real('source_finder')
     flags = loader.real('flags')
     d = tempfile.mkdtemp(prefix='c05_', dir='/var/tmp')
@@ -294,6 +345,9 @@ def oracle(stages=(1, 2, 3), nsrc=9, nopsf=False, ratio=None):
             cat = copy.deepcopy(blind)
             for k, s in enumerate(cat):
                 s.uuid = 'uuid-%d' % k
+                if small and k % 2 == 0:
+                    # a catalogued minor axis a little smaller than the psf (as noise produces): the shape must come back unchanged
+                    s.b = s.psf_b * 0.93
                 if nopsf:
                     s.psf_a = s.psf_b = s.psf_pa = real_np.nan
             f = sfm.SourceFinder(log=logging.getLogger('c05'))
@@ -308,7 +362,7 @@ def oracle(stages=(1, 2, 3), nsrc=9, nopsf=False, ratio=None):
                 p = by[s.uuid]
                 if not (p.flags & flags.PRIORIZED):
                     return True, 'flag', 'PRIORIZED flag missing'
-                if abs(p.peak_flux / s.peak_flux - 1) > 1e-3:
+                if abs(p.peak_flux / s.peak_flux - 1) > 1e-3 and not small:
                     return True, 'flux', 'stage %d: source at (%.4f, %.4f) peak %.5f comes back as %.5f (%.2f%% off; image is exactly the noise-free model of the catalogue)' % (st, s.ra, s.dec, s.peak_flux, p.peak_flux, 100 * (p.peak_flux / s.peak_flux - 1))
                 if st == 1:
                     if abs(p.ra - s.ra) > 1e-9 or abs(p.dec - s.dec) > 1e-9:
@@ -358,13 +412,21 @@ def run(rep):
             rep.stats(st)
             collect(rep, res, 'K-resize-nopsf', lambda rm=rm: oracle((1,), nopsf=True, ratio=(1.0 if rm == 'one' else None)), dict(kind='priorized-nopsf', ratio=(1.0 if rm == 'one' else None)))
     rep.end_kernel()
+    rep.kernel('K-resize-psf', functions=[FC + ':resize'], bounds='one source, all positive sizes; catalogue psf equal to / different from the image psf; psf from catalogue columns or from the helper',
+               stubs=['Beam -> record', 'psf helper -> symbolic beams', 'np.sqrt -> radical'])
+    for same in (True, False):
+        for fc in (True, False):
+            st, res = explore(h_resize_psf(mods, same, fc))
+            rep.stats(st)
+            collect(rep, res, 'K-resize-psf', lambda: oracle((1,), small=True), dict(kind='priorized-small', stages=[1]))
+    rep.end_kernel()
     rep.kernel('K-replay-oracle', functions=[F + ':SourceFinder.priorized_fit_islands'], bounds='noise-free 9-source field = exactly the model of the catalogue: stages 1-3, with psf columns; stage 1 without psf columns at ratio None and 1',
                assumes=['concrete executions at the level of the property statement'])
-    for kw, w in ((dict(stages=(1, 2, 3)), dict(kind='priorized', stages=[1, 2, 3])), (dict(stages=(1,), nopsf=True), dict(kind='priorized-nopsf', ratio=None)), (dict(stages=(1,), nopsf=True, ratio=1.0), dict(kind='priorized-nopsf', ratio=1.0))):
+    for kw, w in ((dict(stages=(1, 2, 3)), dict(kind='priorized', stages=[1, 2, 3])), (dict(stages=(1,), small=True), dict(kind='priorized-small', stages=[1])), (dict(stages=(1,), nopsf=True), dict(kind='priorized-nopsf', ratio=None)), (dict(stages=(1,), nopsf=True, ratio=1.0), dict(kind='priorized-nopsf', ratio=1.0))):
         bad, cls, detail = oracle(**kw)
         rep.validated_runs(1)
         if bad:
-            k = 'K-resize-nopsf' if 'psf' in cls else 'K-refit'
+            k = 'K-resize-nopsf' if 'psf' in cls else ('K-resize-psf' if kw.get('small') else 'K-refit')
             rep.finding('C05/%s/%s' % (k, cls), w, detail)
     rep.end_kernel()
     rep.not_decided += ['fluxes / positions / shapes equal the catalogue values after the fit (0.1 % / 0.01 pixel): replay oracle only', 'blended islands with several sources', 'regroup on/off equivalence']
@@ -386,7 +448,9 @@ def collect(rep, res, kname, replay_fn, wit):
 
 def replay(w):
     wit = w['witness']
-    if wit.get('kind') == 'priorized-nopsf':
+    if wit.get('kind') == 'priorized-small':
+        bad, cls, detail = oracle((1,), small=True)
+    elif wit.get('kind') == 'priorized-nopsf':
         bad, cls, detail = oracle((1,), nopsf=True, ratio=wit.get('ratio'))
     else:
         bad, cls, detail = oracle(tuple(wit.get('stages', [1])))
